@@ -239,6 +239,27 @@ func RunLockstep(c *Case, pick func(n int) int, hk *Hooks) *Outcome {
 		hk.AfterStart(in, m)
 	}
 	reqCount := map[string]int{}
+	// a waiter that lives through the whole run: it must never report
+	// completion while the model still holds a token or a request is pending
+	earlyCtx, earlyCancel := context.WithCancel(context.Background())
+	defer earlyCancel()
+	earlyRes := make(chan bool, 1)
+	go func() { earlyRes <- in.P.WaitUntilComplete(earlyCtx) }()
+	earlyReturned := false
+	checkEarly := func(stage string, gs []quiesce.G) *Outcome {
+		if earlyReturned {
+			return nil
+		}
+		select {
+		case v := <-earlyRes:
+			earlyReturned = true
+			if v && !m.Done() {
+				return fail("complete-early", fmt.Sprintf("%s: WaitUntilComplete returned true while the model still holds tokens (pending %v)", stage, m.PendingIDs()), gs)
+			}
+		default:
+		}
+		return nil
+	}
 
 	// ---- answer loop ----------------------------------------------------------
 	for len(m.Pending) > 0 {
@@ -293,6 +314,9 @@ func RunLockstep(c *Case, pick func(n int) int, hk *Hooks) *Outcome {
 			return out
 		}
 		got = takeNew()
+		if o := checkEarly("after answering "+node, gs); o != nil {
+			return o
+		}
 		obs.Requests = reconcile(m, obs.Requests, got)
 		out.Steps = append(out.Steps, Step{Stimulus: fmt.Sprintf("answer %s %s %v", node, ans.Kind, ans.Results), Expected: obs.Requests, Got: got})
 		if miss, extra := multisetDiff(obs.Requests, got); len(miss)+len(extra) > 0 {
